@@ -8,10 +8,14 @@ is virtual.  A case = scenario parameters + a schedule (either a sparse set of d
 default non-pre-emptive round-robin schedule, or a gap-encoded random choice list).
 
 Scenarios
-  a  k foreign threads x m call-later submissions (Scheduler.callLater, POXCore.call_later, raiseLater)
+  a  k foreign threads x m call-later submissions (Scheduler.callLater, POXCore.call_later, raiseLater), also bursts
+     of N in {1, 2, 1023, 1024, 1025, 2047, 2048, 2049} submissions that pile up before the scheduler drains them
   b  several threads (and a task on the scheduler thread) calling schedule(T) on one blocked task T
   c  `with scheduler.synchronized():` sections (nested too) on foreign threads while tasks run
   d  2-4 cooperative tasks running generated acquire / try-acquire / release programs on 1-2 recoco Locks
+
+Pinger configurations: "fake" (detsched's counter pinger; pongAll on an empty pinger blocks and is reported) and
+"real" (pox.lib.util's own make_pinger / PipePinger code running over detsched's virtual pipes: util.os is shimmed).
 
 Oracles are history invariants written from the property text (exactly once, on the scheduler thread,
 per-thread order, noticed at the virtual instant of submission; queued at most once / never lost; no
@@ -55,7 +59,8 @@ ASSUMPTIONS = [
   "thread switches happen only at source-line boundaries of the traced recoco/core functions and at blocking primitives; "
   "everything else (deque/Queue/set operations, C code, untraced Python) is atomic",
   "the harness's Lock/Event/Thread.join/select/pinger re-implementations have the semantics of the real ones "
-  "(pongAll on an empty pinger blocks like a read on the real pipe)",
+  "(pongAll on an empty pinger blocks like a read on the real pipe); in the real-pinger configuration util's PipePinger code "
+  "runs unchanged over a virtual pipe (blocking read while empty, 64 KiB capacity, readable in select iff non-empty)",
   "schedule() is only called on a task that has yielded False (documented contract); a lock is only released by its holder; "
   "blocking acquires respect a lock order so that the generated programs cannot deadlock by themselves",
   "a wake-up 'relies on the polling timeout' exactly when virtual time has to advance (all threads blocked) before the work runs",
@@ -65,7 +70,10 @@ EXHAUSTIVE_SCOPE = {
            "c (1 task x 3 steps, 2 threads x 1 section, one nested) : every schedule with <= 1 deviation from the default "
            "round-robin schedule at window lines / forced switches, both hub modes, both base orders; scenario d: every pair of "
            "lock programs of length 3 and every triple of length 2 over {acquire, try, release, yield} on one lock, default "
-           "schedule; the same deviation enumeration (<= 1) with the scheduler under test not being recoco.defaultScheduler",
+           "schedule; the same deviation enumeration (<= 1) with the scheduler under test not being recoco.defaultScheduler, and "
+           "(threaded hub, base order 0) with util's real PipePinger over virtual pipes; call-later bursts of N in {1, 2, 1023, "
+           "1024, 1025, 2047, 2048, 2049} from one thread x inside/outside synchronized() x with/without warm-up x both hubs x "
+           "both base orders, and six two-thread splits, default schedule, real PipePinger",
   "thorough": "as quick with <= 2 deviations (<= 3 for a with 2 threads x 1 op, threaded hub, base order 0); d: every triple of "
               "length-3 programs on one lock and every pair of length-3 programs on two locks",
 }
@@ -303,16 +311,19 @@ def _scn_a(p, ds, obs, m):
     q = obs.q if obs.q is not None else []
     ran_q = set((i, j) for i, j, _, _, _ in q)
     missing = [ij for ij in expected if ij not in ran_q]
-    for ij in missing[:1]:
-      if True:
-        later = [e for e in final if (e[0], e[1]) == ij]
-        if later:
-          out.fail("wakeup-needs-poll", "scenario a: %d of %d functions (first: %r, submitted at t=%r) had not run when every thread "
-                   "was blocked; it ran only at t=%r after virtual time advanced (polling timeout)"
-                   % (len(missing), len(expected), ij, later[0][3], later[0][4]), scn="a")
-        else:
-          out.fail("call-lost", "scenario a: %d of %d functions (first: %r) had not run at quiescence and did not run during %d s "
-                   "of polling either" % (len(missing), len(expected), ij, 3 * CYCLE_MAX), scn="a")
+    fin_by = {}
+    for e in final:
+      fin_by.setdefault((e[0], e[1]), e)
+    late = [ij for ij in missing if ij in fin_by]
+    lost = [ij for ij in missing if ij not in fin_by]
+    if late:
+      e = fin_by[late[0]]
+      out.fail("wakeup-needs-poll", "scenario a: %d of %d functions (first: %r, submitted at t=%r) had not run when every thread "
+               "was blocked; they ran only after virtual time advanced (first at t=%r: polling timeout)"
+               % (len(late), len(expected), late[0], e[3], e[4]), scn="a")
+    if lost:
+      out.fail("call-lost", "scenario a: %d of %d functions (first: %r) had not run at quiescence and did not run during %d s "
+               "of polling either" % (len(lost), len(expected), lost[0], 3 * CYCLE_MAX), scn="a")
     cnt = {}
     for e in final:
       cnt[(e[0], e[1])] = cnt.get((e[0], e[1]), 0) + 1
@@ -633,7 +644,7 @@ def _execute(case):
   ds = D.DetSched(chooser=chooser, trace=m.trace, windows=m.windows, base=int(sc.get("base", 0)),
                   decide_on="windows" if sc.get("on") == "win" else "all", observer=observer, on_abort=on_abort,
                   opcode=m.opcode if sc.get("on") == "op" else (),
-                  max_vtime_span=60.0, watchdog_s=60.0)
+                  max_vtime_span=60.0, watchdog_s=60.0, max_switch_points=2000000)
   r = _SCN[scn](case["p"], ds, obs, m)
   before, bodies, snap, judge = r[0], r[1], r[2], r[3]
   if len(r) > 4 and r[4] is not None:
@@ -737,7 +748,8 @@ def _execute(case):
     out.label("cfg:nondefault")
   out.label("pinger:" + ("real" if realp else "fake"))
   if scn == "a" and any(isinstance(op, list) for pr in case["p"]["threads"] for op in pr):
-    out.label("a:burst", "a:burst-total:%d" % sum(op[1] for pr in case["p"]["threads"] for op in pr if isinstance(op, list)))
+    tot = sum(op[1] if isinstance(op, list) else 1 for pr in case["p"]["threads"] for op in pr)
+    out.label("a:burst", "a:burst-total:%s" % (tot if tot in BURSTS else ("multiple-of-1024" if tot % 1024 == 0 else "other")))
   out.label("scn:" + scn, "hub:" + ("threaded" if hub else "inline"), "sched:" + ("dev" if "devs" in sc else "random"))
   if sc.get("on") == "op":
     out.label("sched:opcode-level")
@@ -777,9 +789,11 @@ def _small_instances():
   ]
 
 
-def _dev_cases(scn, p, hub, base, bound, cfg=None):
+def _dev_cases(scn, p, hub, base, bound, cfg=None, pinger=None):
   def mk(devs):
     c = {"scn": scn, "hub": hub, "p": p, "sched": {"on": "win", "base": base, "devs": sorted([k, v] for k, v in devs.items())}}
+    if pinger:
+      c["pinger"] = pinger
     if cfg:
       c["cfg"] = cfg
     return c
@@ -805,6 +819,36 @@ def _enum_sched(tier):
             bound = 3
           for c in _dev_cases(scn, p, hub, base, bound):
             yield c
+      # the same instance with pox.lib.util's real PipePinger over virtual pipes (threaded hub, base order 0)
+      for c in _dev_cases(scn, p, True, 0, 1 if tier == "quick" else 2, pinger="real"):
+        yield c
+  return gen
+
+
+BURSTS = [1, 2, 1023, 1024, 1025, 2047, 2048, 2049]
+
+
+def _enum_bursts(tier):
+  """Scenario a with bursts of N call-later submissions that pile up on the CallLaterTask's pinger before the
+  scheduler drains it (submitted inside synchronized(), or simply by a foreign thread that runs first)."""
+  def gen():
+    def case(threads, hold, warm, hub, base, pinger):
+      return {"scn": "a", "hub": hub, "pinger": pinger, "p": {"threads": threads, "hold": hold, "warm": warm},
+              "sched": {"on": "win", "base": base, "devs": []}}
+    for n in BURSTS:
+      for hold in (True, False):
+        for warm in (True, False):
+          for hub in (True, False):
+            for base in (0, 1):
+              yield case([[["b", n]]], hold, warm, hub, base, "real")
+              if n <= 2:
+                yield case([[["b", n]]], hold, warm, hub, base, "fake")
+    for split in ([1023, 1], [512, 512], [1024, 1024], [2047, 1], [1000, 25], [1, 1024]):
+      for hub in (True, False):
+        for warm in (True, False):
+          yield case([[["b", split[0]]], [["b", split[1]]]], False, warm, hub, 0, "real")
+    yield case([[["b", 1024], "co", "rl"]], True, True, True, 0, "real")
+    yield case([["cl", ["b", 1023]]], True, True, True, 0, "real")
   return gen
 
 
@@ -860,10 +904,15 @@ def _strategy(tier):
     pd = st.fixed_dictionaries({"locks": st.integers(1, 2),
                                 "tasks": st.lists(st.lists(dop, min_size=1, max_size=8 if big else 6), min_size=2, max_size=4)})
 
-    def case(scn, p, maxgap, op=False):
-      return st.fixed_dictionaries({"scn": st.just(scn), "hub": st.booleans(), "p": p, "sched": _s_sched(maxgap, op)})
+    def case(scn, p, maxgap, op=False, pinger=None):
+      return st.fixed_dictionaries({"scn": st.just(scn), "hub": st.booleans(), "p": p, "sched": _s_sched(maxgap, op),
+                                    "pinger": pinger if pinger is not None else st.sampled_from(["fake", "real"])})
+    bop = st.one_of(op, op, st.tuples(st.just("b"), st.sampled_from(BURSTS + [3, 511, 1024])).map(list))
+    pburst = st.fixed_dictionaries({"threads": st.lists(st.lists(bop, min_size=1, max_size=2), min_size=1, max_size=2),
+                                    "hold": st.booleans(), "warm": st.booleans()})
     return st.one_of(case("a", pa, 60), case("a", pa, 25), case("b", pb, 50), case("b", pb, 20), case("c", pc, 50),
-                     case("c", pc, 20), case("d", pd, 40), case("a", pa, 150, True), case("b", pb, 120, True))
+                     case("c", pc, 20), case("d", pd, 40), case("a", pa, 150, True), case("b", pb, 120, True),
+                     case("a", pburst, 4000, False, st.just("real")))
   return s
 
 
@@ -885,4 +934,5 @@ def plan(tier):
   return [Enum("sched-deviations", _enum_sched(tier), shards=16),
           Enum("lock-programs", _enum_locks(tier), shards=16),
           Enum("nondefault-scheduler", _enum_nondefault(tier), shards=8),
+          Enum("calllater-bursts", _enum_bursts(tier), shards=16),
           Hyp("random-schedules", _strategy(tier), examples=n, shards=16)]
